@@ -7,6 +7,10 @@
    decision and the predicted field content. *)
 EXTENDS RelocRange, TLC, Json
 
+CONSTANT Variant   \* "spec": the table as specified.  Anything else: a deliberately broken reading of the
+                   \* table (each one is a defect that wild once had); TLC must reject every one of them
+                   \* (anti-vacuity), and the conformance harness reports a VIOLATION if the code behaves so.
+
 VARIABLES ti, V
 vars == <<ti, V>>
 
@@ -37,8 +41,24 @@ Init == ti \in 1..Len(Types) /\ V \in Values(Types[ti])
 Next == UNCHANGED vars
 Spec == Init /\ [][Next]_vars
 
-NoTruncInv == FitsImpliesNoTruncation(Ty, V)
-TightInv == Tight(Ty, V)
+(* The decision rule under test: Fits, or one of the broken readings *)
+PrelChecked == {"R_AARCH64_MOVW_PREL_G0", "R_AARCH64_MOVW_PREL_G1", "R_AARCH64_MOVW_PREL_G2"}
+VFits(t, X) ==
+    CASE Variant = "spec" -> Fits(t, X)
+      (* R_X86_64_8 / R_X86_64_16 read as signed-only: 200 rejected although the byte holds it *)
+      [] Variant = "signed-only-8-16" ->
+            IF t.name \in {"R_X86_64_8", "R_X86_64_16"} THEN FitsSigned(t.n, X) ELSE Fits(t, X)
+      (* "no check" implemented as the half-open range [i64::MIN, i64::MAX): i64::MAX rejected *)
+      [] Variant = "half-open-no-check" ->
+            IF t.sign = "none" THEN X # (0..62) ELSE Fits(t, X)
+      (* the checked PC-relative MOVW groups left unchecked: overflow silently truncated *)
+      [] Variant = "unchecked-movw-prel" ->
+            IF t.name \in PrelChecked THEN TRUE ELSE Fits(t, X)
+
+NoTruncInv == (VFits(Ty, V) /\ Aligned(Ty, V)) => NoTruncation(Ty, V)
+TightInv == (Ty.sign # "none" /\ ~VFits(Ty, V) /\ Aligned(Ty, V)) => ~NoTruncation(Ty, V)
+(* an unchecked type accepts every 64-bit value *)
+UncheckedInv == Ty.sign = "none" => VFits(Ty, V)
 ASSUME \A i, j \in 1..Len(Types) :
           (Types[i].arch = Types[j].arch /\ Types[i].rtype = Types[j].rtype) => i = j
 ASSUME \A i \in 1..Len(Types) : Types[i].insn # "" =>
@@ -51,8 +71,4 @@ Rec == [arch |-> Ty.arch, name |-> Ty.name, rtype |-> Ty.rtype, sign |-> Ty.sign
         op |-> IF Ty.insn = "" THEN {} ELSE Encodings[EncOf(Ty)].op]
 Emit == PrintT(<<"REPLAY", ToJson(Rec)>>)
 
-(* anti-vacuity: with R_X86_64_8 read as signed-only (the defect of the pinned tree) the table is
-   no longer tight: 200 is rejected although the byte holds it *)
-BrokenFits(t, X) == IF t.name = "R_X86_64_8" THEN FitsSigned(8, X) ELSE Fits(t, X)
-BrokenTightInv == (Ty.sign # "none" /\ ~BrokenFits(Ty, V) /\ Aligned(Ty, V)) => ~NoTruncation(Ty, V)
 =============================================================================
